@@ -304,7 +304,7 @@ struct Shared {
     received: Mutex<Vec<u8>>,
     count: AtomicUsize,
     /// line settings of the slave sampled by the peer at every DA1 query: (stream position, words)
-    at_da: Mutex<Vec<(usize, Option<Vec<u32>>)>>,
+    at_da: Mutex<Vec<(usize, Option<Vec<u32>>, Instant)>>,
     paused: AtomicBool,
     answer_size: AtomicBool,
     stop: AtomicBool,
@@ -346,7 +346,7 @@ fn peer(master: RawFd, keep: RawFd, shared: Arc<Shared>) {
         let mut done = 0;
         while i < tail.len() {
             if tail[i..].starts_with(b"\x1b[c") {
-                shared.at_da.lock().unwrap().push((base, termios_words(keep)));
+                shared.at_da.lock().unwrap().push((base, termios_words(keep), Instant::now()));
                 unsafe { libc::write(master, DA_REPLY.as_ptr() as *const libc::c_void, DA_REPLY.len()) };
                 i += 3;
                 done = i;
@@ -1083,11 +1083,13 @@ fn run_session(s: &Session) -> Outcome {
         r.out.class = Some("termination-signal-pending-at-drop".into());
     }
     let _ = verif_c17::take_trace();
+    let mut drop_started: Option<Instant> = None;
     if panicked {
         // do not run the destructor of a terminal that panicked (it would poll again)
         std::mem::forget(term);
     } else {
         let t_drop = Instant::now();
+        drop_started = Some(t_drop);
         let dropped = guarded(move || drop(term));
         r.out.drop_ms = t_drop.elapsed().as_millis();
         if dropped.is_err() {
@@ -1149,12 +1151,15 @@ fn run_session(s: &Session) -> Outcome {
             }
             // dispose waits for the peer's answer to the DA1 query that ends the closing sequence before it restores the
             // settings — unless its wait ends early (termination signal pending: Err(Quit); 1 s without answer)
-            let waited_for_peer = r.term_raised.is_none() && r.out.drop_ms < 900;
-            if let (true, Some((_, Some(words)))) = (waited_for_peer, at_da.iter().rev().find(|(pos, _)| *pos > send_before)) {
+            // — so a sample the peer took less than 0.9 s after drop began, with no termination signal around, was
+            // taken while dispose was still waiting for the answer
+            if let (Some(t_drop), Some((_, Some(words), at))) = (drop_started, at_da.iter().rev().find(|(pos, _, _)| *pos > send_before)) {
+              if r.term_raised.is_none() && *at < t_drop + Duration::from_millis(900) {
                 if words[3] & (libc::ICANON as u32) != 0 && before.as_ref().is_some_and(|b| b[3] & (libc::ICANON as u32) != 0) {
                     r.fail("the line settings were restored before the closing sequence was delivered",
                         "raw mode while the peer reads the closing sequence".into(), words_token(words));
                 }
+              }
             }
         }
         // ---- trace refinement of dispose
@@ -1166,7 +1171,7 @@ fn run_session(s: &Session) -> Outcome {
         let mut restore_words: Option<Vec<u32>> = None;
         for x in recs.iter() {
             match x {
-                Rec::Dispose { step, queued, events } => {
+                Rec::Dispose { step, queued, events, signals_closed } => {
                     if let Some(sg) = seg.take() {
                         polls.push(poll_model(&sg, Some(1_000_000_000), size_esc).env);
                     }
@@ -1174,7 +1179,8 @@ fn run_session(s: &Session) -> Outcome {
                     match *step {
                         "poll" => seg = Some(Vec::new()),
                         "tcsetattr_ok" => restore_ok = true,
-                        "signals_off" => signals_off = true,
+                        // the signals are switched off before the closing sequence is queued
+                        "execute_many" => signals_off = *signals_closed,
                         _ => {}
                     }
                 }
